@@ -219,10 +219,14 @@ fn eval_isolated_after(check: &dyn Check, scenario: &Value, history: Option<&His
     ));
     std::fs::write(&path, json!({"property": check.id(), "scenario": scenario, "history": history}).to_string()).unwrap();
     let exe = exe_for_scenario(check, scenario);
+    // the child's report goes to a file, not a pipe: an OUTCOME line with large narrowed
+    // scenarios exceeds the pipe capacity and would block a child nobody reads from until exit
+    let out_path = path.with_extension("out");
+    let out_file = std::fs::File::create(&out_path).expect("create exec output file");
     let mut child = Command::new(exe)
         .arg("exec")
         .arg(&path)
-        .stdout(Stdio::piped())
+        .stdout(Stdio::from(out_file))
         .stderr(Stdio::null())
         .spawn()
         .expect("spawn exec child");
@@ -241,6 +245,8 @@ fn eval_isolated_after(check: &dyn Check, scenario: &Value, history: Option<&His
         }
     };
     let _ = std::fs::remove_file(&path);
+    let out = std::fs::read_to_string(&out_path).unwrap_or_default();
+    let _ = std::fs::remove_file(&out_path);
     let _ = std::fs::remove_dir(&dir); // only if empty (the supervisor removes its own at the end)
     match status {
         None => (
@@ -253,9 +259,6 @@ fn eval_isolated_after(check: &dyn Check, scenario: &Value, history: Option<&His
             0,
         ),
         Some(s) => {
-            let mut out = String::new();
-            use std::io::Read;
-            let _ = child.stdout.take().unwrap().read_to_string(&mut out);
             if let Some(line) = out.lines().rev().find(|l| l.starts_with("OUTCOME ")) {
                 let v: Value = serde_json::from_str(&line[8..]).unwrap_or(Value::Null);
                 let viols: Vec<Violation> =
@@ -805,7 +808,7 @@ fn replay_main(checks: &[&'static dyn Check], path: &Path) -> i32 {
     let history: Option<History> = serde_json::from_value(v["history"].clone()).ok().flatten();
     let isolated = v["isolated"].as_bool().unwrap_or(false) || check.dual_mode() || history.is_some();
     let (viols, h) = if isolated {
-        let base = std::env::var("VERIF_WATCHDOG_S").ok().and_then(|s| s.parse().ok()).unwrap_or_else(|| check.watchdog_s(Tier::Quick));
+        let base = std::env::var("VERIF_WATCHDOG_S").ok().and_then(|s| s.parse().ok()).unwrap_or_else(|| check.watchdog_s(v["tier"].as_str().and_then(Tier::parse).unwrap_or(Tier::Quick)));
         let steps = 1 + history.as_ref().map_or(0, |h| h.indices.len() as u64);
         eval_isolated_after(*check, &scenario, history.as_ref(), Duration::from_secs(base.saturating_mul(steps).min(7200)))
     } else {
